@@ -186,4 +186,25 @@ SPEC = {
                    ]))},
         },
     },
+    "Infra": {
+        "file": "inferno/core/infrastructure.py",
+        "functions": {
+            "_unwind_ptr": {"params": {"pointer": "zint", "offset": "zint", "size": "zint"}},
+            "_unwind_tensor_ptr": {"params": {"pointer": "zint", "offset": "zint", "size": "zint"}},
+        },
+        "sites": {
+            # the record-size expression, at its three occurrences
+            "RecordTensor_size_init": {
+                "file": "inferno/core/infrastructure.py", "cls": "RecordTensor", "method": "__init__", "target": "size",
+                "params": {"duration": R, "step_time": R, "inclusive": B}},
+            "RecordTensor_size_dt": {
+                "file": "inferno/core/infrastructure.py", "cls": "RecordTensor", "method": "dt", "target": "size",
+                "rename": {"self.__duration": "duration", "self.__dt": "step_time", "self.__inclusive": "inclusive"},
+                "params": {"duration": R, "step_time": R, "inclusive": B}},
+            "RecordTensor_size_duration": {
+                "file": "inferno/core/infrastructure.py", "cls": "RecordTensor", "method": "duration", "target": "size",
+                "rename": {"self.__duration": "duration", "self.__dt": "step_time", "self.__inclusive": "inclusive"},
+                "params": {"duration": R, "step_time": R, "inclusive": B}},
+        },
+    },
 }
